@@ -4,7 +4,7 @@ import ast
 import re
 from fractions import Fraction as F
 
-from .. import bary, baryvert, dualasm, idxspace, roles, shapesets as S
+from .. import bary, baryvert, bcfan, dualasm, idxspace, roles, shapesets as S
 from ..core import AnalysisError
 from ..src import arg_names, unparse
 
@@ -40,12 +40,16 @@ GRID_ = "bempp_cl/api/grid/grid.py"
 def _table_arg(fn, callee, pos, what):
     """The literal table passed at position `pos` of the call of `callee` in fn: its defining assignment."""
     cs = [c for c in ast.walk(fn) if isinstance(c, ast.Call) and unparse(c.func).split(".")[-1] == callee]
-    if len(cs) != 1 or len(cs[0].args) <= pos or not isinstance(cs[0].args[pos], ast.Name):
-        raise AnalysisError("%s: the %s table is not passed by name to %s" % (fn.name, what, callee))
+    if len(cs) != 1 or len(cs[0].args) <= pos:
+        raise AnalysisError("%s: the %s table is not passed to %s" % (fn.name, what, callee))
+    if not isinstance(cs[0].args[pos], ast.Name):
+        # the table written in place of the argument (or named on the line before: the loader reads that the same way)
+        return ast.copy_location(ast.Assign(targets=[ast.Name(id="‹table›", ctx=ast.Store())], value=roles.inline(cs[0].args[pos], roles.Defs(fn))), cs[0].args[pos])
     st = _find_assign(fn, cs[0].args[pos].id)
     if st is None:
         raise AnalysisError("%s: %s table `%s` has no defining assignment" % (fn.name, what, cs[0].args[pos].id))
-    return st
+    # locals naming a fragment of the table expression (`raw = _np.array([...]); local_coords = raw.T`) are read through
+    return ast.copy_location(ast.Assign(targets=st.targets, value=roles.inline(st.value, roles.Defs(fn))), st)
 
 
 def _affine(node, defs, syms, first=False):
@@ -366,9 +370,18 @@ def rwg_tables(ctx, B, pts):
     g = m.fn("generate_rwg0_map")
     r2 = ctx.rule("RWG-BARY-LEN", "generate_rwg0_map: dof_mult[j][l] is the length of sub-edge l of sub-triangle j (full coarse edge for outer halves); outer_edges[k] is coarse edge k", 19)
     seg = {}
+    gdefs = roles.Defs(g)
+    pts_arrays = tuple({n.value.id for n in ast.walk(g) if isinstance(n, ast.Subscript) and isinstance(n.value, ast.Name) and isinstance(n.slice, ast.Tuple) and len(n.slice.elts) == 2
+                        and isinstance(n.slice.elts[0], ast.Slice) and isinstance(n.slice.elts[1], ast.Constant)})
+    norm_of = {}  # local -> its value with fragment-naming locals read through (the point arrays stay names)
     for stt in ast.walk(g):
-        if isinstance(stt, ast.Assign) and isinstance(stt.targets[0], ast.Name) and isinstance(stt.value, ast.Call) and unparse(stt.value.func).endswith("linalg.norm"):
-            arg = stt.value.args[0]
+        if isinstance(stt, ast.Assign) and isinstance(stt.targets[0], ast.Name):
+            v_ = roles.inline(stt.value, gdefs, keep=pts_arrays)
+            if isinstance(v_, ast.Call) and unparse(v_.func).endswith("linalg.norm") and v_.args:
+                norm_of[stt.targets[0].id] = v_
+    for nm_, v_ in norm_of.items():
+        if True:
+            arg = v_.args[0]
             if isinstance(arg, ast.BinOp) and isinstance(arg.op, ast.Sub):
                 idx = []
                 for side in (arg.left, arg.right):
@@ -376,13 +389,12 @@ def rwg_tables(ctx, B, pts):
                             and isinstance(side.slice.elts[1], ast.Constant)):
                         idx.append(side.slice.elts[1].value)
                 if len(idx) == 2:
-                    seg[stt.targets[0].id] = tuple(idx)
+                    seg[nm_] = tuple(idx)
     # the points the lengths are measured between: the seven local points mapped to the *listed element* (not to its position)
     bases = set()
-    for stt in ast.walk(g):
-        if isinstance(stt, ast.Assign) and isinstance(stt.targets[0], ast.Name) and stt.targets[0].id in seg:
-            a_ = stt.value.args[0]
-            bases |= {unparse(a_.left.value), unparse(a_.right.value)}
+    for nm_ in seg:
+        a_ = norm_of[nm_].args[0]
+        bases |= {unparse(a_.left.value), unparse(a_.right.value)}
     gp = arg_names(g)
     lp = [l for l in ast.walk(g) if isinstance(l, ast.For) and isinstance(l.target, ast.Tuple) and len(l.target.elts) == 2 and unparse(l.iter).replace(" ", "") == "enumerate(%s)" % gp[1]]
     okpts, whypts = False, "the sub-edge lengths are not all measured on one array of mapped points (found %s)" % sorted(bases)
@@ -580,6 +592,7 @@ def run(ctx):
     dual1(ctx, B)
     rwg_tables(ctx, B, pts)
     bc_reference_edge(ctx, B)
+    bcfan.fan_bundles(ctx)
     bary_inherit(ctx)
     bary_family(ctx)
     compat(ctx)
@@ -591,12 +604,24 @@ def run(ctx):
 def _builder_chains(fn):
     """[(grid argument, {setter name: argument node})] of every SpaceBuilder(...).set_x(...)...build() chain in fn."""
     out = []
+    defs = roles.Defs(fn)
+
+    def through(x):
+        """A local naming the first part of a chain (`b = SpaceBuilder(g).set_a(..)`; `b.set_b(..).build()`) is read through."""
+        k = 0
+        while isinstance(x, ast.Name) and k < 10:
+            dd = defs.lookup(x.id, getattr(x, "lineno", None))
+            if dd is None or dd[0] != "expr":
+                break
+            x, k = dd[1], k + 1
+        return x
+
     for n in ast.walk(fn):
         if isinstance(n, ast.Call) and isinstance(n.func, ast.Attribute) and n.func.attr == "build":
-            d, cur = {}, n.func.value
+            d, cur = {}, through(n.func.value)
             while isinstance(cur, ast.Call) and isinstance(cur.func, ast.Attribute):
                 d[cur.func.attr] = cur.args[0] if cur.args else None
-                cur = cur.func.value
+                cur = through(cur.func.value)
             if isinstance(cur, ast.Call) and unparse(cur.func) == "SpaceBuilder" and cur.args:
                 out.append((cur.args[0], d, n))
     return out
